@@ -784,6 +784,65 @@ pub struct LineShape {
 }
 
 impl FnDump {
+    /// the blocks of `line` contain a loop with two entries (an irreducible region): some
+    /// strongly connected set of >= 2 of them – at any nesting depth – is entered, from blocks
+    /// outside the set, at two different blocks
+    pub fn line_irreducible(&self, line: u32) -> bool {
+        let set: Vec<usize> = (0..self.blocks.len()).filter(|&i| self.blocks[i].lines.contains(&line)).collect();
+        self.irreducible_in(&set)
+    }
+
+    fn irreducible_in(&self, set: &[usize]) -> bool {
+        let reach = |from: usize| -> Vec<usize> {
+            let mut seen: Vec<usize> = Vec::new();
+            let mut stack: Vec<usize> = vec![from];
+            while let Some(x) = stack.pop() {
+                for &(d, _) in &self.blocks[x].succ {
+                    if set.contains(&d) && !seen.contains(&d) {
+                        seen.push(d);
+                        stack.push(d);
+                    }
+                }
+            }
+            seen
+        };
+        let reaches: Vec<Vec<usize>> = set.iter().map(|&b| reach(b)).collect();
+        let mut done: Vec<usize> = Vec::new();
+        for (i, &b) in set.iter().enumerate() {
+            if done.contains(&b) || !reaches[i].contains(&b) {
+                continue; // already handled, or not on any circuit
+            }
+            let scc: Vec<usize> = set
+                .iter()
+                .enumerate()
+                .filter(|(j, &c)| c == b || (reaches[i].contains(&c) && reaches[*j].contains(&b)))
+                .map(|(_, &c)| c)
+                .collect();
+            done.extend(scc.iter().copied());
+            if scc.len() < 2 {
+                continue;
+            }
+            let entries: Vec<usize> = scc
+                .iter()
+                .copied()
+                .filter(|&c| {
+                    (0..self.blocks.len())
+                        .any(|p| !scc.contains(&p) && self.blocks[p].succ.iter().any(|(d, _)| *d == c))
+                })
+                .collect();
+            if entries.len() >= 2 {
+                return true;
+            }
+            // a natural loop: look inside its body (the loop without its header)
+            let header = entries.first().copied().unwrap_or(scc[0]);
+            let body: Vec<usize> = scc.iter().copied().filter(|&c| c != header).collect();
+            if self.irreducible_in(&body) {
+                return true;
+            }
+        }
+        false
+    }
+
     pub fn line_shape(&self, line: u32) -> LineShape {
         let occ: usize = self.blocks.iter().map(|b| b.lines.iter().filter(|l| **l == line).count()).sum();
         let set: Vec<usize> = (0..self.blocks.len()).filter(|&i| self.blocks[i].lines.contains(&line)).collect();
@@ -1150,6 +1209,18 @@ pub fn gen_loop_fn(rng: &mut Rng, idx: u32, nlines: u32, file: &[u8]) -> GenFn {
     let mut arcs: Vec<(u32, u32, u32)> = Vec::new();
     // returns (entry block, exit block) of a gadget
     fn gadget(rng: &mut Rng, depth: u32, next: &mut u32, arcs: &mut Vec<(u32, u32, u32)>) -> (u32, u32) {
+        if rng.chance(1, 3) {
+            // a loop {u, v} with two entries (from the head and through x): irreducible
+            let (s, u, v, x, after) = (*next, *next + 1, *next + 2, *next + 3, *next + 4);
+            *next += 5;
+            for a in [(s, u), (u, v), (v, u), (u, s), (s, x), (x, v), (s, after)] {
+                arcs.push((a.0, a.1, 0));
+            }
+            if rng.chance(1, 2) {
+                arcs.push((v, after, 0));
+            }
+            return (s, after);
+        }
         let head = *next;
         let latch = *next + 1;
         let after = *next + 2;
